@@ -432,7 +432,12 @@ def c1(repo: Repo) -> RuleResult:
                     res.unsure(f"C1: {mod.rel}:{n.lineno} raises {name}, which the constraint catalogue does not know (a new constraint, or a refactoring: extend the catalogue by hand)")
     for f in res.findings:
         if not f.part:
-            f.part = "imports" if f.tag.startswith("import:") else "constraints"
+            if f.tag.startswith("import:"):
+                f.part = "imports"
+            elif "MessageSizeOverflows" in f.tag or "InvalidArrayCap" in f.tag or "validate_array_cap" in f.where or ("validate_post_freeze" in f.where and "max_bytes" not in f.message):
+                f.part = "prefix-range"  # what the 16-bit prefix of extensible items can represent
+            else:
+                f.part = "constraints"
     return res
 
 
